@@ -795,7 +795,38 @@ func (c *Ctx) checkProgramLoopsAndAllocs(r *Report) {
 				return ok && !isNilConst(retVal(ret, stIdx))
 			}
 			recv := fn.Params[0]
+			var ctxFromRecvOf func(recv ssa.Value, depth int) func(in ssa.Instruction) bool
+			ctxFromRecvOf = func(recv ssa.Value, depth int) func(in ssa.Instruction) bool {
+				return func(in ssa.Instruction) bool {
+					// a helper method of the running state that builds the new state and sets its Context from the
+					// receiver on every path
+					if hc, ok := in.(*ssa.Call); ok && depth < 2 {
+						callee := hc.Common().StaticCallee()
+						if callee != nil && isModuleSSA(callee) && callee.Blocks != nil && len(callee.Params) > 0 && len(hc.Common().Args) > 0 && hc.Common().Args[0] == recv && isStatePtr(callee.Params[0].Type()) {
+							return mustPassFromEntry(callee, ctxFromRecvOf(callee.Params[0], depth+1), isReturn) == nil
+						}
+						return false
+					}
+					st, ok := in.(*ssa.Store)
+					if !ok {
+						return false
+					}
+					fa, ok := st.Addr.(*ssa.FieldAddr)
+					if !ok || fa.Field != ctxIdx || !isStatePtr(fa.X.Type()) || fa.X == recv {
+						return false
+					}
+					ld, ok := st.Val.(*ssa.UnOp)
+					if !ok {
+						return false
+					}
+					lfa, ok := ld.X.(*ssa.FieldAddr)
+					return ok && lfa.Field == ctxIdx && lfa.X == recv
+				}
+			}
 			isCtxFromRecv := func(in ssa.Instruction) bool {
+				if ctxFromRecvOf(recv, 0)(in) {
+					return true
+				}
 				st, ok := in.(*ssa.Store)
 				if !ok {
 					return false
